@@ -20,7 +20,7 @@ RULE = ('cases: a peer-model conversation for a client or server (after a prefix
         'combination of the four validation/normalisation switches and header_encoding; non-trivial = the input '
         'holds >= 2 complete frames and at least one stream-level event or an error was produced; distinct by '
         'concrete trace; violations are bucketed by (exception type, innermost h2 function)')
-ASSUMPTIONS = ['a receive_data that raised a ProtocolError ends the case (the connection is closed)']
+ASSUMPTIONS = ['after a receive_data that raised a ProtocolError the remaining chunks (and a few more frames) are still delivered: the oracle applies to every call']
 TIERS = {'quick': {'cases': 12000, 'size': 300, 'atheris_runs': 96000},
          'thorough': {'cases': 400000, 'size': 400, 'atheris_runs': 1500000}}
 
@@ -45,11 +45,28 @@ def run_case(data):
         'normalize_outbound_headers': not cfgbits & 8,
         'header_encoding': 'utf-8' if cfgbits & 64 else None,
     }
-    mode = ch.weighted([(6, 'frames'), (2, 'frames+bytes'), (2, 'bytes'), (1, 'raw'), (1, 'valid'), (1, 'cont-flood')])
+    mode = ch.weighted([(6, 'frames'), (2, 'frames+bytes'), (2, 'bytes'), (1, 'raw'), (1, 'valid'), (1, 'cont-flood'),
+                        (3, 'blocks')])
     frames = sc.frames
     start = 0 if sc.client else 1
     if mode in ('frames', 'frames+bytes'):
         frames, _ = bytesgen.mutate_frames(ch, frames, start if ch.chance(230) else 0)
+    if mode == 'blocks':
+        # an adversarial header block in the place of a genuine one (HEADERS or PUSH_PROMISE), everything else valid
+        frames = list(frames)
+        hits = 0
+        for i, f in enumerate(frames):
+            if len(f) < 9 or f == wire.PREFACE:
+                continue
+            length, t_, flags, rbit, sid = wire.parse_header(f[:9])
+            if t_ == wire.HEADERS and not flags & (wire.F_PADDED | wire.F_PRIORITY) and ch.chance(100):
+                frames[i] = wire.raw(t_, flags | wire.F_END_HEADERS, sid, bytesgen.adversarial_block(ch))
+                hits += 1
+            elif t_ == wire.PUSH_PROMISE and not flags & wire.F_PADDED and len(f) >= 13 and ch.chance(160):
+                frames[i] = wire.raw(t_, flags | wire.F_END_HEADERS, sid, f[9:13] + bytesgen.adversarial_block(ch))
+                hits += 1
+        if hits:
+            r.labels.add('adversarial-block-in-position')
     if mode == 'cont-flood':
         frames = list(frames) + bytesgen.continuation_flood(ch, ch.pick([1, 3, 5, 7, 9, 2]))
     stream = b''.join(frames)
@@ -66,12 +83,25 @@ def run_case(data):
     c = ep.c
     got_stream_event = False
     err = None
-    for chunk in bytesgen.split(stream, cuts):
+    chunks = bytesgen.split(stream, cuts)
+    if ch.bool():
+        # a peer that ignores our GOAWAY: a few more frames after whatever happened (each in its own call)
+        from hpack import Encoder
+        blk = Encoder().encode(bytesgen.REQ if not sc.client else [(b':status', b'200')])
+        for _ in range(ch.int(1, 3)):
+            k = ch.pick(['open', 'open', 'push', 'data', 'settings', 'ping', 'wu', 'rst'])
+            sid = ch.pick([1, 3, 5, 7, 9, 11, 101, 2, 4])
+            chunks.append({'open': wire.headers(sid, blk, end_stream=ch.bool()),
+                           'push': wire.push_promise(ch.pick([1, 3, 5]), ch.pick([2, 4, 6, 100]), blk),
+                           'data': wire.data(sid, b'x' * ch.int(0, 9)), 'settings': wire.settings([(3, 1)]),
+                           'ping': wire.ping(b'12345678'), 'wu': wire.window_update(ch.pick([0, sid]), 5),
+                           'rst': wire.rst_stream(sid, 8)}[k])
+    for chunk in chunks:
         try:
             evs = c.receive_data(chunk)
         except h2.exceptions.ProtocolError as e:
             err = type(e).__name__
-            break
+            continue       # the connection is closed now; what else arrives must still be handled cleanly
         except Exception as e:   # noqa: BLE001 - this is the property: anything else is a violation
             err = type(e).__name__
             r.violate('C17:%s:%s' % (type(e).__name__, innermost_h2(e.__traceback__)), repr(e)[:200])
